@@ -196,16 +196,19 @@ func c06backpressure(c *vt.Ctx, L, w, rel int, batchWaiters bool, ctrl *sched.Co
 			rig.H.Release(fmt.Sprintf("run%d", rel%L))
 			// the reply of that call is now held inside Send, with the server's mutex; a
 			// request that has been given the free slot must not need that mutex to start
-			if stuck := peer.SettleOrStuck(ctrl); stuck != nil {
-				c.Failf("%s: with the finished call's reply still being written, %d goroutine(s) of the server wait for its mutex for good (no request can start although a slot is free); first:\n%.1500s", what, len(stuck), stuck[0])
+			// Either way the server can go no further until the write is let through: if other
+			// goroutines wait for the mutex meanwhile, that is the harness's doing - unless the
+			// waiter that should have started is among them.
+			stuck := peer.SettleOrStuck(ctrl)
+			wantStarted := min(k+1, w)
+			if got := started(); stuck != nil && got != wantStarted {
+				c.Failf("%s: with the finished call's reply still being written, %d of the waiting calls have started, want %d, and nothing can move: %d goroutine(s) of the server wait for its mutex (a request that has been given the free slot must not need that mutex to start); first:\n%.1500s", what, got, wantStarted, len(stuck), stuck[0])
 				close(hold)
 				rig.H.ReleaseAll()
 				rig.Settle()
 				rig.Finish()
 				return
 			}
-			rig.Collect()
-			wantStarted := min(k+1, w)
 			if got := started(); got != wantStarted {
 				c.Failf("%s: after %d of the running calls returned (their replies still being written), %d waiting calls have started, want %d: a slot is free as soon as its handler has returned",
 					what, k+1, got, wantStarted)
